@@ -60,7 +60,7 @@ var c15Sanctioned = map[string][]string{
 	// importers: an entry is left out only when it has neither a parsable package URL nor a CPE
 	// (the PURL == nil half of the conjunction is not a skip edge by itself: CPE-only entries are kept)
 	"extractor/filesystem/sbom/spdx.Extractor.convertSpdxDocToPackage": {
-		"range-end: param1.Packages",
+		"range-end: param0.Packages",
 		"builtin.len(local:*extractor.Package.Metadata.(*spdx.Metadata).CPEs) == 0 && local:*extractor.Package.Metadata.(*spdx.Metadata).PURL == nil:*github.com/google/osv-scalibr/purl.PackageURL",
 	},
 	"extractor/filesystem/sbom/cdx.enumerateComponents": {
@@ -72,8 +72,8 @@ var c15Sanctioned = map[string][]string{
 	},
 	// an absent document / component list has nothing to import
 	"extractor/filesystem/sbom/cdx.Extractor.convertCdxBomToPackage": {
-		"nil:*[]github.com/CycloneDX/cyclonedx-go.Component == param1.Components",
-		"nil:*github.com/CycloneDX/cyclonedx-go.BOM == param1",
+		"nil:*[]github.com/CycloneDX/cyclonedx-go.Component == param0.Components",
+		"nil:*github.com/CycloneDX/cyclonedx-go.BOM == param0",
 	},
 }
 
@@ -306,7 +306,30 @@ func c15Formats(p *Prog, r *Report) {
 					okAll = false
 				}
 			}
-			walk(enc.Call.Args[1], enc.Block())
+			// the same choice written as a lookup in a package-level table keyed by the format name
+			tableForm := false
+			if ex, ok := enc.Call.Args[1].(*ssa.Extract); ok && ex.Index == 0 {
+				if lk, ok := ex.Tuple.(*ssa.Lookup); ok && lk.CommaOk && lk.Index == ssa.Value(cw.Params[2]) {
+					if rows, ok := mapRows(p, cw, lk.X); ok && len(rows) > 0 {
+						tableForm = true
+						for _, row := range rows {
+							k, okK := constString(row.Key)
+							n, okN := constInt(row.Val)
+							if !okK || !okN {
+								tableForm = false
+								break
+							}
+							cdxW[k] = n
+						}
+						if !tableForm {
+							cdxW = map[string]int64{}
+						}
+					}
+				}
+			}
+			if !tableForm {
+				walk(enc.Call.Args[1], enc.Block())
+			}
 			if !okAll || len(cdxW) == 0 {
 				r.Undecided("D2-format-family", "cdx.Write:formats", p.Pos(enc.Pos()), "the encoder's file format is not a constant chosen by comparing the format argument with constants")
 			}
